@@ -275,7 +275,7 @@ Proof.
   { unfold encode_with, enc_meta. rewrite Ev. unfold b, v4. rewrite <- !app_assoc. reflexivity. }
   assert (Nlen b = 4 + (4 + Nlen S1) + (4 + Nlen S2) + (4 + Nlen S3) + (4 + Nlen S4) + (4 + Nlen S5)) as Hb.
   { unfold b. rewrite !Nlen_app, !Nlen_section. change (Nlen v4) with 4. lia. }
-  unfold decode. rewrite Ee.
+  unfold decode, decode_with. rewrite Ee.
   assert (bin_version (MAGIC_WRITER ++ [EMIT_VERSION] ++ b) = Ok (b, V3)) as ->.
   { unfold bin_version. assert (Nlen (MAGIC_WRITER ++ [EMIT_VERSION] ++ b) <? MIN_LEN = false) as ->.
     { apply N.ltb_ge. rewrite !Nlen_app. change (Nlen MAGIC_WRITER) with 3. change (Nlen [EMIT_VERSION]) with 1. unfold MIN_LEN. lia. }
